@@ -346,7 +346,7 @@ def stream_models(ctx):
     vc, meta = [], []
     for c, r in zip(cases, res):
         if 'crash' in r or 'build_exc' in r:
-            ctx.violation('C01/models/exception', 'a history of models sharing a well-formed sub-formula failed',
+            ctx.violation(f'{ctx.pid}/models/exception', 'a history of models sharing a well-formed sub-formula failed',
                           {'script': c['script'], 'E': strip_sids(c['E'])}, None, r.get('crash') or r.get('build_exc'))
             continue
         news = [i for i, s_ in enumerate(c['script']) if s_[0] == 'new']
@@ -374,7 +374,7 @@ def stream_models(ctx):
         if v == 'differ':
             w = {'E': c['E'], 'P': c['P'], 'Q': c['Q'], 'betas': c['betas'], 'rows': c['rows'], 'script': c['script'], 'valsets': c['valsets'],
                  'step': step}
-            if ctx.violation(f'C01/models/{s_[0]}-{s_[1]}-step{step}', f'in the history {c["script"]} the value returned by step {step} {s_} is '
+            if ctx.violation(f'{ctx.pid}/models/{s_[0]}-{s_[1]}-step{step}', f'in the history {c["script"]} the value returned by step {step} {s_} is '
                              'outside the enclosure of the mathematical value of its formula at that value set (identifiers or values left by '
                              'another model / evaluation were used)', w, info, None):
                 st.disagree({'script': c['script'], 'step': step, 'E': strip_sids(c['E'])}, info, None)
